@@ -7,6 +7,7 @@ CLAIMED = {
     'C03': (T, 'reader represented by the model read_xml, tied by byte-level correspondence; custom DTD entities outside the model', None),
     'C05': (T, 'idempotence of blank-line trimming, escaping and read-back proved; attribute re-sort / class re-split identities covered by correspondence only (partial)', None),
     'C09': (T, Q, None),
+    'C18': (T, 'independence of instances, first-registration template and specs proved on the pipeline skeleton; translation validation of reuse documents against inlined twins; the instantiation itself (attribute override, placement) is modelled in Model/Leaf.v and not yet under a theorem (partial)', None),
     'C19': (T, Q + '; text fidelity proved for text_string / lines / escaping, placement from the generated alignment table', None),
     'C10': (T, 'order independence proved for the abstract retry loop over a monotone step; the concrete step is not monotone (K3, excluded by its schedule-based class); all-orders oracle on the implementation', None),
     'C11': (T, Q, None),
